@@ -39,6 +39,8 @@ Stats stats();
 void mutex_lock(void *m);
 void mutex_unlock(void *m);
 void cv_wait(void *cv, void *m);
+bool cv_wait_timed(void *cv, void *m);
+bool mutex_try_lock(void *m);
 void cv_notify(void *cv, bool all);
 int thread_start(std::function<void()> fn);
 void thread_join(int id);
